@@ -220,7 +220,7 @@ func C05(r *eng.Run) {
 		// One temporary read error somewhere in the valid prefix (inside a
 		// data payload or exactly between two fragments); the application
 		// retries. What follows is judged as before.
-		cfg.Retry, cfg.NoDiscard = true, true
+		cfg.Retry, cfg.NoDiscard, cfg.PerFrame = true, true, false
 		p.Transient = TransientIn(r, s.Frames[:k])
 	}
 	if lastOnWire && p.EOFWithData && payLen == 0 {
@@ -481,7 +481,7 @@ func C07(r *eng.Run) {
 		return
 	}
 	cfg := drawReadCfg(r, []int{AppReader, AppReader, AppReadMessage, AppReadData})
-	cfg.CheckUTF8 = true
+	cfg.CheckUTF8, cfg.PerFrame = true, false
 	// cfg.Extended stays as drawn: a negotiated extension (no RSV bits on these
 	// frames) changes nothing about what is text.
 	if cfg.Extended {
@@ -516,7 +516,7 @@ func C07(r *eng.Run) {
 	if cfg.App == AppReader && cfg.Bufio == 0 && !cfg.OnContRead && r.T.Chance(sim.LFault, 1, 6) {
 		// One temporary read error inside the payload of a data frame; the
 		// application reads every unit to its end and retries.
-		cfg.Retry, cfg.NoDiscard = true, true
+		cfg.Retry, cfg.NoDiscard, cfg.PerFrame = true, true, false
 		p.Transient = TransientIn(r, s.Frames)
 	}
 	if cfg.App == AppReader && !cfg.OnContRead && !cfg.Retry && r.T.Bool(sim.LCfg) {
